@@ -34,6 +34,10 @@ pub struct Scenario {
     /// `aws_s2n_quic_verif`: S2N_QUIC_VERIF_KEY_UPDATE_AFTER); None = the library's behaviour (2^23 - 10 000 packets)
     #[serde(default)]
     pub key_update_after: Option<u32>,
+    /// the server's TLS security policy admits TLS_AES_256_GCM_SHA384 only (s2n-tls policy "20250414"), so the connection
+    /// runs on the AES-256 suite of s2n-quic-crypto instead of the default TLS_AES_128_GCM_SHA256
+    #[serde(default)]
+    pub tls_aes256: bool,
 }
 
 /// which side's own transport parameters are rewritten, and how (applied in order to the block the endpoint encoded)
